@@ -3,6 +3,7 @@ package main
 import (
 	"encoding/json"
 	"fmt"
+	"math/big"
 	"time"
 
 	jsonproc "github.com/iden3/go-schema-processor/v2/json"
@@ -20,6 +21,13 @@ var c18Patterns = []string{"^[a-z]+$", "^[A-Z][a-z]*$", "^\\d+$", "abc", "^a.c$"
 var c18Strings = []string{"", "a", "abc", "Abc", "ABC", "123", "a1c", "xyz", "yyz", "héllo", "日本", "a b", "x@y.com", "a-b", "foo", " ", "aXc", "0", "long string with spaces"}
 
 func (g *sgen) num() any {
+	if g.r.Chance(10) {
+		// numbers a float64 cannot hold exactly, clustered so that bounds and instances meet: comparisons are exact in JSON Schema
+		base := []string{"9007199254740992", "9223372036854775808", "18446744073709551616", "100000000000000000", "-9007199254740992"}[g.r.Intn(5)]
+		b, _ := new(big.Int).SetString(base, 10)
+		b.Add(b, big.NewInt(int64(g.r.Intn(5))-2))
+		return RawNum(b.String())
+	}
 	switch g.r.Intn(4) {
 	case 0:
 		return RawNum(fmt.Sprint(g.r.Intn(41) - 20))
@@ -471,6 +479,41 @@ func genC18(out *Out, r *Rng, tier string, n int, shard int) {
 			}
 			out.Emit(Case{Op: "none", In: J{"schema": json.RawMessage(schemaB), "text": string(bad)}, Impl: J{"err": "err"}, Prop: propOf(why),
 				Tags: []string{"malformed-data", "damage:" + kind}, NT: true})
+		}
+		// exact comparison of numbers that a float64 cannot hold, in a schema that carries the $metadata block
+		{
+			base := []string{"9007199254740992", "9223372036854775808", "18446744073709551616", "100000000000000000", "-9007199254740992", "18446744073709551615"}[r.Intn(6)]
+			b, _ := new(big.Int).SetString(base, 10)
+			b.Add(b, big.NewInt(int64(r.Intn(3))-1))
+			kw := []string{"minimum", "maximum", "exclusiveMinimum", "exclusiveMaximum", "const", "enum"}[r.Intn(6)]
+			var kv any = RawNum(b.String())
+			if kw == "enum" {
+				kv = []any{RawNum(b.String()), "x"}
+			}
+			big1 := OObj{}
+			for _, x := range root {
+				if x.K == "$schema" || x.K == "$metadata" {
+					big1 = append(big1, x)
+				}
+			}
+			big1 = append(big1, KV{"type", "object"}, KV{"properties", OObj{{"n", OObj{{kw, kv}}}}})
+			sb := toJSONText(big1)
+			for d := int64(-2); d <= 2; d++ {
+				nv := new(big.Int).Add(b, big.NewInt(d))
+				want := map[string]bool{"minimum": d >= 0, "maximum": d <= 0, "exclusiveMinimum": d > 0, "exclusiveMaximum": d < 0, "const": d == 0, "enum": d == 0}[kw]
+				db := toJSONText(OObj{{"n", RawNum(nv.String())}})
+				verdict, verr := verdictOf(db, sb)
+				var why []string
+				if (verdict == "valid") != want || verdict == "error" {
+					why = append(why, fmt.Sprintf("%s %s against n = %s: expected valid=%v, got %s (%v)", kw, b, nv, want, verdict, verr))
+				}
+				impl := J{"ok": verdict}
+				if verdict == "error" {
+					impl = J{"err": "err"}
+				}
+				out.Emit(Case{Op: "schema.validate", In: J{"schema": json.RawMessage(sb), "data": json.RawMessage(db)}, Impl: impl, Prop: propOf(why),
+					Tags: []string{"draft:" + g.draft, "verdict:" + verdict, "big-number-bound", "kw:" + kw}, NT: true})
+			}
 		}
 		// annotation members are ignored: the verdicts must not change when $metadata is removed
 		noMeta := OObj{}
